@@ -130,3 +130,136 @@ func Mutate(p *Program, intn func(int) int) string {
 	}
 	return ""
 }
+
+// MutateNames applies up to k single-occurrence name edits to the program: a use or a
+// binder is replaced by another name that occurs in the program, by `self`, or by an
+// undefined name. The results pass the preliminary checks and fail (or not) deep inside
+// the checker - the inputs nobody thought of for C09.
+func MutateNames(p *Program, intn func(int) int, k int) int {
+	terms := allTerms(p)
+	if len(terms) == 0 {
+		return 0
+	}
+	names := map[string]bool{}
+	for _, d := range p.Defs {
+		for _, q := range d.Params {
+			names[q.N] = true
+		}
+		collectNames(d.Body, names)
+	}
+	for _, q := range p.Procs {
+		for _, n := range q.Names {
+			names[n] = true
+		}
+		collectNames(q.Body, names)
+	}
+	pool := append(SortedKeys(names), "self", "zz")
+	pick := func() string { return pool[intn(len(pool))] }
+	n := 1 + intn(k)
+	done := 0
+	for i := 0; i < n; i++ {
+		t := terms[intn(len(terms))]
+		switch x := t.(type) {
+		case *Send:
+			switch intn(3) {
+			case 0:
+				x.To = pick()
+			case 1:
+				x.Payload = pick()
+			default:
+				x.Cont = pick()
+			}
+		case *Recv:
+			switch intn(3) {
+			case 0:
+				x.X = pick()
+			case 1:
+				x.Y = pick()
+			default:
+				x.From = pick()
+			}
+		case *Sel:
+			if intn(2) == 0 {
+				x.To = pick()
+			} else {
+				x.Cont = pick()
+			}
+		case *Case:
+			if intn(2) == 0 || len(x.Brs) == 0 {
+				x.From = pick()
+			} else {
+				x.Brs[intn(len(x.Brs))].Payload = pick()
+			}
+		case *New:
+			// a cut's binder renamed to a name that is live, was consumed, or is used by its own body
+			fv := map[string]bool{}
+			FV(x.Body, map[string]bool{}, fv)
+			if ks := SortedKeys(fv); len(ks) > 0 && intn(2) == 1 {
+				x.X = ks[intn(len(ks))]
+				if intn(2) == 1 {
+					// and one more edit inside the body, so that the body's own context is off as well
+					switch b := x.Body.(type) {
+					case *Send:
+						b.Payload = pick()
+					case *Sel:
+						b.Cont = pick()
+					case *Call:
+						b.Args = append(b.Args, pick())
+					case *Fwd:
+						b.From = pick()
+					case *Cast:
+						b.Cont = pick()
+					}
+				}
+			} else {
+				x.X = pick()
+			}
+			if intn(3) == 0 {
+				x.Ann = !x.Ann
+			}
+		case *Call:
+			if len(x.Args) > 0 {
+				x.Args[intn(len(x.Args))] = pick()
+			} else {
+				x.Args = append(x.Args, pick())
+			}
+		case *Wait:
+			x.X = pick()
+		case *Fwd:
+			if intn(2) == 0 {
+				x.From = pick()
+			} else {
+				x.To = pick()
+			}
+		case *Split:
+			switch intn(3) {
+			case 0:
+				x.X1 = pick()
+			case 1:
+				x.X2 = pick()
+			default:
+				x.From = pick()
+			}
+		case *Drop:
+			x.X = pick()
+		case *Cast:
+			if intn(2) == 0 {
+				x.To = pick()
+			} else {
+				x.Cont = pick()
+			}
+		case *Shift:
+			if intn(2) == 0 {
+				x.X = pick()
+			} else {
+				x.From = pick()
+			}
+		case *Close:
+			x.X = pick()
+		default:
+			continue
+		}
+		done++
+	}
+	return done
+}
